@@ -189,6 +189,7 @@ func runC13(tier string) int {
 		}
 	}
 	for di, d := range c13Defs {
+		opts.Switches = map[string]string{"PV": d.name}
 		head := strings.Join(d.lines, "\n") + "\n"
 		blank := strings.Repeat("\n", len(d.lines))
 		multi := strings.Contains(d.expanded, " ") || len(d.lines) > 1
@@ -240,7 +241,8 @@ func runC13(tier string) int {
 			"script " + d.name + " {\n\tx\n}\n",                                                               // script name
 			"text " + d.name + " {\n\t\"t\"\n}\nmovement M" + d.name + " {\n\tu\n}\n",                         // text name
 			"mapscripts " + d.name + " {\n\t" + d.name + ": " + d.name + "\n}\n",                              // mapscripts name, type, label
-			"raw `\n" + d.name + "\n`\n",                                                                      // raw
+			"raw `\n" + d.name + "\n`\n",
+			"script S {\n\tporyswitch(PV) {\n\t\t" + d.name + ": x1\n\t\t_: x2\n\t}\n}\nmart Mt {\n\tporyswitch(PV) {\n\t\t" + d.name + " { I1 }\n\t\t_ { I2 }\n\t}\n}\n", // poryswitch case label (compiled with -s PV=<name>)                                                                      // raw
 		}
 		for ni, np := range nonPositions {
 			eval(fmt.Sprintf("nonposition%d defs#%d", ni, di), head+np, blank+np, multi)
@@ -368,7 +370,7 @@ func runC13(tier string) int {
 	r.Assume("values with parentheses are only used at sites where nested parentheses can be written out literally (command arguments, value(...))",
 		"const lines are replaced by blank lines so that line markers stay comparable")
 	return r.Finish(r.Get("evaluations"), r.Get("nontrivial"),
-		"17 definition sets (a value naming a constant that is defined later; single token, multi-token, parenthesised, const from const two levels deep, hex, negative, multi-byte value; constant names with a non-ASCII first letter, a non-ASCII letter inside, a leading underscore, lower case with digits) x every single use site, every pair and triple (thorough: quadruple) and all 28 documented use sites (incl. the var argument of AutoVar commands with var_name_arg_position 0 and 1) (five of them inside a larger expression) at once (command argument incl. nested, flag/var/defeated operands, comparison values incl. value(), switch operand and case value, AutoVar argument and comparison, goto target, map-script table var/value and inline body, mart item) + 8 non-positions (command name, movement step, label, moves() step, text content, script/text/mapscripts names, raw) + use before definition + redefinition + every identifier-like literal of the compiler's own source as a constant's name and as its value at every site + chains of K constants and K independent constants for every K up to the bound in the coverage; outputs compared byte for byte with line markers on, optimize on/off; also every program of the control-flow families (C01 / C03 / C04 bounds) with every operand, comparison value and case value written as a constant; non-trivial = multi-token or chained definition")
+		"17 definition sets (a value naming a constant that is defined later; single token, multi-token, parenthesised, const from const two levels deep, hex, negative, multi-byte value; constant names with a non-ASCII first letter, a non-ASCII letter inside, a leading underscore, lower case with digits) x every single use site, every pair and triple (thorough: quadruple) and all 28 documented use sites (incl. the var argument of AutoVar commands with var_name_arg_position 0 and 1) (five of them inside a larger expression) at once (command argument incl. nested, flag/var/defeated operands, comparison values incl. value(), switch operand and case value, AutoVar argument and comparison, goto target, map-script table var/value and inline body, mart item) + 9 non-positions (command name, movement step, label, moves() step, text content, script/text/mapscripts names, raw, poryswitch case label selected by -s) + use before definition + redefinition + every identifier-like literal of the compiler's own source as a constant's name and as its value at every site + chains of K constants and K independent constants for every K up to the bound in the coverage; outputs compared byte for byte with line markers on, optimize on/off; also every program of the control-flow families (C01 / C03 / C04 bounds) with every operand, comparison value and case value written as a constant; non-trivial = multi-token or chained definition")
 }
 
 var (
